@@ -211,6 +211,7 @@ func DrawProfile(property, tier string, r *PRNG) *Profile {
 	case "C13":
 		core(bridgeKinds...)
 		scale(p.Weights, bridgeKinds, 3)
+		p.AvoidKnown = r.Chance(0.75)
 		p.PDup = Pick(r, []float64{0.15, 0.3})
 		p.PDelay = Pick(r, []float64{0.1, 0.25})
 		scale(p.Weights, dataKinds, 0.1)
